@@ -11,12 +11,17 @@
    is modelled in C14/Typed.v: c1 = 2 (an interface{} holding a container costs two frames per
    level), pointers cost none.
 
-   What is NOT here: json (harness only; its skip walker is an iterative scanner, Wire/Json.v);
-   bytes of stack per frame (runtime); "_partial" marks statements over a family of inputs
-   rather than all inputs. *)
+   json: the decode-into-interface{} model of Wire/Json.v (tied by the check Wjson) has the same
+   two results, for every leaf implementation (C14_json_bound, C14_json_error, C14_json_refuse);
+   its skip walker is an iterative scanner (recursion level 1) and enforces no depth.
+
+   What is NOT here: bytes of stack per frame (runtime); "_partial" marks statements over a
+   family of inputs rather than all inputs (kept next to their full versions C14_cbor_error and
+   C14_simple_error, which they preceded). *)
 From Coq Require Import List NArith ZArith Lia Bool.
 From Verif Require Import Base.Outcome Wire.Item Gen.Consts.
 From Verif Require Wire.Cbor Wire.Msgpack Wire.Simple Wire.Binc Wire.SimpleProofs Wire.SimpleDepth Wire.BincProofs.
+From Verif Require Wire.CborDepthFull Wire.SimpleDepthFull Wire.Json Wire.JsonDepth C14.JsonFull.
 From Verif Require Import C14.Bridge C14.Typed C14.TypedProofs.
 Import ListNotations.
 
@@ -29,8 +34,33 @@ Theorem C14_cbor_bound : forall (D : Cbor.dopts) (f : nat) (b : list N),
 Proof. exact cbor_bound. Qed.
 Print Assumptions C14_cbor_bound.
 
-(* PARTIAL: the wire layer has no "every Ok value is nested less than MaxDepth" lemma for cbor.
-   Proved here: any mixture [l] of one-element arrays, one-entry maps (nesting through the value)
+(* FULL: for EVERY option vector, fuel and input, a value nested MaxDepth levels or more is never
+   returned.  The depth measure is Item.depth, which counts arrays, maps AND tags: exactly the
+   places where the cbor model (Wire/Cbor.v dec_body / dec_tag, the code after F14-2) calls
+   depthIncr.  A tag the decoder keeps is an ITag node of the result and costs one level; a tag it
+   skips (SkipUnexpectedTags, the self-describe tag 55799) or consumes (tags 0..5) leaves no ITag
+   node in the result and costs none, so no cbor-specific measure is needed
+   (Wire/CborDepthFull.v: induction on the fuel over the five mutually recursive functions with
+   the entry depth generalised: Ok i at entry depth d < MaxDepth implies d + depth i < MaxDepth). *)
+Theorem C14_cbor_error : forall (D : Cbor.dopts) (f : nat) (b : list N) (i : item) (rest : list N),
+  (Cbor.maxdepth D <= Z.of_nat (depth i))%Z -> Cbor.dec_naked D f b <> Ok (i, rest).
+Proof. exact CborDepthFull.dec_depth_error. Qed.
+Print Assumptions C14_cbor_error.
+
+(* the boundary is tight and skipped tags do not count: MaxDepth 3 returns values of depth 2
+   (two arrays; a kept tag around an array), refuses depth 3, and with SkipUnexpectedTags four
+   tags around two arrays still decode (to a value of depth 2) *)
+Example C14_cbor_error_nonvacuous :
+  let D := Cbor.mkdo false false false 3 in
+  Cbor.maxdepth D = 3%Z /\
+  Cbor.dec_naked D 100 [201; 129; 1]%N = Ok (ITag 9 (IArr [IUint 1]), []) /\ depth (ITag 9 (IArr [IUint 1])) = 2%nat /\
+  Cbor.dec_naked D 100 [201; 129; 201; 1]%N = Err EDepth /\
+  Cbor.dec_naked (Cbor.mkdo false false true 3) 100 [201; 202; 203; 204; 129; 129; 1]%N = Ok (IArr [IArr [IUint 1]], []) /\
+  Cbor.dec_naked D 100 [217; 217; 247; 129; 129; 1]%N = Ok (IArr [IArr [IUint 1]], []).
+Proof. vm_compute. repeat apply conj; reflexivity. Qed.
+
+(* PARTIAL (kept; superseded by C14_cbor_error as far as "never Ok" goes, but it names the error
+   class): any mixture [l] of one-element arrays, one-entry maps (nesting through the value)
    and kept tags, MaxDepth levels or more, around any non-empty core, is the depth error. *)
 Theorem C14_cbor_error_partial : forall (D : Cbor.dopts) (l : list nk) (core : list N) (f : nat),
   Cbor.do_skiptags D = false -> core <> [] -> (Cbor.maxdepth D <= Z.of_nat (length l))%Z -> (3 * length l + 1 <= f)%nat ->
@@ -64,7 +94,27 @@ Theorem C14_simple_bound : forall (D : Simple.dopts) (l : list N) (fuel : nat),
 Proof. exact simple_bound. Qed.
 Print Assumptions C14_simple_bound.
 
-(* PARTIAL (encoder outputs, not all byte strings): from W_simple_depth_error: every encodable item
+(* FULL: for EVERY option vector, fuel and input, a value nested MaxDepth levels or more is never
+   returned (Wire/SimpleDepthFull.v: induction on the fuel over dec / dec_elems / dec_pairs with the
+   entry depth generalised; the containerLenNil branch of depth_enter, which skips depthIncr, is
+   dead because decLen never returns a negative length after F14-3/simple) *)
+Theorem C14_simple_error : forall (D : Simple.dopts) (fuel : nat) (l : list N) (i : item) (rest : list N),
+  (Simple.maxdepth D <= Z.of_nat (depth i))%Z -> Simple.dec_naked D fuel l <> Ok (i, rest).
+Proof. exact SimpleDepthFull.dec_depth_error. Qed.
+Print Assumptions C14_simple_error.
+
+(* MaxDepth 3: depth 2 is returned (array in array; map in array), depth 3 is refused whether the
+   third level sits in a map key or a map value *)
+Example C14_simple_error_nonvacuous :
+  let D := Simple.mkdopts false false 3 in
+  Simple.maxdepth D = 3%Z /\
+  Simple.dec_naked D 100 [233; 1; 233; 1; 8; 5]%N = Ok (IArr [IArr [IUint 5]], []) /\
+  Simple.dec_naked D 100 [233; 1; 241; 1; 8; 5; 8; 5; 7]%N = Ok (IArr [IMap [(IUint 5, IUint 5)]], [7%N]) /\
+  Simple.dec_naked D 100 [233; 1; 241; 1; 8; 5; 233; 1; 1]%N = Err EDepth /\
+  Simple.dec_naked D 100 [233; 1; 241; 1; 233; 1; 1; 8; 5]%N = Err EDepth.
+Proof. vm_compute. repeat apply conj; reflexivity. Qed.
+
+(* PARTIAL (kept: encoder outputs, not all byte strings, but it names the error class): from W_simple_depth_error: every encodable item
    nested MaxDepth levels or more, in any mixture of arrays and maps (keys or values), followed by
    anything, is refused with the depth error *)
 Theorem C14_simple_error_partial : forall (o : Simple.eopts) (D : Simple.dopts) (i : item) (rest : list N),
@@ -89,6 +139,35 @@ Theorem C14_binc_error : forall (o : Binc.dopts) (st : Binc.dstate) (inp : list 
   (1 <= Binc.maxdepth o)%N -> (Binc.maxdepth o <= N.of_nat (depth x))%N -> Binc.dec_naked o st inp <> Ok (x, r, st').
 Proof. exact binc_error. Qed.
 Print Assumptions C14_binc_error.
+
+(* ------------------------------ json ------------------------------ *)
+(* from W_json_depth (Wire/JsonDepth.v depth_lemma): for EVERY leaf implementation, option vector,
+   fuel and tokenizer state (every input, every pending token): the instrumented decoder is the
+   decoder and its recursion counter (one level per nested decode(&interface{}) call, the top call
+   being level 1) is at most 1 * MaxDepth + 0; the skip / raw scanner (nextValueBytes) is one loop
+   over the bytes: recursion level 1 whatever the input *)
+Theorem C14_json_bound : forall (L : Json.leaf) (D : Json.dopts) (fuel : nat) (s : Json.st),
+  fst (Json.deci L D fuel 0 1 false s) = Json.dec L D fuel 0 false s /\
+  (Z.of_nat (snd (Json.deci L D fuel 0 1 false s)) <= 1 * Json.maxdepth D + 0)%Z /\
+  (Z.of_nat Json.skip_maxrec <= 1 * Json.maxdepth D + 0)%Z.
+Proof. exact JsonFull.json_bound. Qed.
+Print Assumptions C14_json_bound.
+
+(* FULL, same shape as the binary formats: for EVERY leaf, option vector, fuel and input, a value
+   nested MaxDepth levels or more is never returned (C14/JsonFull.v) *)
+Theorem C14_json_error : forall (L : Json.leaf) (D : Json.dopts) (fuel : nat) (l : list N) (i : item) (rest : list N),
+  (Json.maxdepth D <= Z.of_nat (depth i))%Z -> Json.dec_naked L D fuel l <> Ok (i, rest).
+Proof. exact JsonFull.json_error. Qed.
+Print Assumptions C14_json_error.
+
+(* from W_json_depth_error: ... and what is returned instead is the depth error, as soon as the
+   container is met: an opening bracket or brace seen when MaxDepth - 1 containers are open is
+   refused whatever follows, in every position *)
+Theorem C14_json_refuse : forall (L : Json.leaf) (D : Json.dopts) (f : nat) (dp : Z) (key : bool) (s s1 : Json.st),
+  Json.advance s = Ok s1 -> (Json.tok s1 = 91%N \/ Json.tok s1 = 123%N) -> (Json.maxdepth D <= dp + 1)%Z ->
+  Json.dec L D (S f) dp key s = Err EDepth.
+Proof. exact JsonDepth.dec_depth_refuse. Qed.
+Print Assumptions C14_json_refuse.
 
 (* ------------------------------ typed path ------------------------------ *)
 (* for EVERY type environment (recursive declarations included), destination type, MaxDepth,
@@ -127,6 +206,18 @@ Example C14_msgpack_nonvacuous :
   Msgpack.dec_maxrec (Msgpack.mkdopts true false false 0) (N.to_nat 9000%N) (repeat 145%N (N.to_nat 4000%N)) = 1024%nat.
 Proof. vm_compute. repeat apply conj; reflexivity. Qed.
 
+(* json with C09's string code as the leaf: MaxDepth 3 returns depth 2, refuses depth 3; the
+   counter reaches the bound on 4000 opening brackets; the scanner takes them without recursion *)
+Example C14_json_nonvacuous :
+  let Lf := Json.c09_leaf (Json.mktables [] [] [] []) in
+  let D := Json.mkdopts false false false false 3 in
+  Json.maxdepth D = 3%Z /\
+  Json.dec_naked Lf D 100 [91; 123; 34; 97; 34; 58; 49; 125; 93]%N = Ok (IArr [IMap [(IStr [97%N], IUint 1)]], []) /\
+  Json.dec_naked Lf D 100 [91; 123; 34; 97; 34; 58; 91; 93; 125; 93]%N = Err EDepth /\
+  Json.dec Lf D 100 2 false (Json.st0 [91; 93]%N) = Err EDepth /\
+  snd (Json.deci Lf (Json.mkdopts false false false false 0) (N.to_nat 10000%N) 0 1 false (Json.st0 (repeat 91%N (N.to_nat 4000%N)))) = 1024%nat /\
+  Json.skip 0 (repeat 91%N (N.to_nat 3000%N) ++ repeat 93%N (N.to_nat 3000%N) ++ [55%N]) = Ok [55%N].
+Proof. vm_compute. repeat apply conj; reflexivity. Qed.
 
 Definition Tenv : env := fun _ => TStruct [TSlice (TNamed 0); TMap TScalar (TNamed 0); TPtr (TNamed 0)].
 Example C14_typed_nonvacuous :
